@@ -152,6 +152,37 @@ def polyApply [Zero α] [One α] [Add α] [Mul α] [Div α] [Neg α] (tiny : α 
   | none => none
   | some c => some (filterCor fidx c)
 
+/-- `polyStep` with a general defect filter: the unit filter entries `fidx` followed by `fdef` (`filter_def` of a
+    mean filter; `some` for the unit / none filters) -/
+def polyStepF [Zero α] [One α] [Add α] [Mul α] [Div α] [Neg α] (tiny : α → Bool) (fidx : List Nat)
+    (fdef : Array α → Option (Array α)) (A : Csr α) (invD aux3 : Array α) (cor : Array α) : Option (Array α) :=
+  match A.apply tiny cor (Array.replicate A.rows 0) false with
+  | none => none
+  | some aux1 =>
+    match fdef (filterCor fidx aux1) with
+    | none => none
+    | some aux1 =>
+      let aux2 := compProd A.rows invD aux1
+      let cor := Array.ofFn (n := A.rows) fun i => cor.getD i.val 0 + 1 * aux3.getD i.val 0
+      some (Array.ofFn (n := A.rows) fun i => cor.getD i.val 0 + (-1) * aux2.getD i.val 0)
+
+def polyLoopF [Zero α] [One α] [Add α] [Mul α] [Div α] [Neg α] (tiny : α → Bool) (fidx : List Nat)
+    (fdef : Array α → Option (Array α)) (A : Csr α) (invD aux3 : Array α) : Nat → Array α → Option (Array α)
+  | 0, cor => some cor
+  | m + 1, cor =>
+    match polyStepF tiny fidx fdef A invD aux3 cor with
+    | none => none
+    | some c => polyLoopF tiny fidx fdef A invD aux3 m c
+
+/-- `PolynomialPrecond::apply` with a general defect filter inside the loop (the correction filter of the non-unit
+    filter types is applied by the caller) -/
+def polyApplyF [Zero α] [One α] [Add α] [Mul α] [Div α] [Neg α] (tiny : α → Bool) (m : Nat) (fidx : List Nat)
+    (fdef : Array α → Option (Array α)) (A : Csr α) (invD x : Array α) : Option (Array α) :=
+  let c0 := compProd A.rows invD x
+  match polyLoopF tiny fidx fdef A invD c0 m c0 with
+  | none => none
+  | some c => some (filterCor fidx c)
+
 /-! ### scale / diagonal / matrix preconditioners -/
 
 /-- `ScalePrecond::apply`: `vec_cor.scale(vec_def, omega)` -/
